@@ -220,8 +220,11 @@ func (ed Editor) ApplyOpts(op LineOperation, opts Options) Editor {
 	}
 
 	// make sure to preserve the last line sep if it exists; it will have been
-	// clobbered in call to lines() if it was.
-	if !opts.NoTrailingLineSeparators && strings.HasSuffix(ed.Text, opts.LineSeparator) {
+	// clobbered in call to lines() if it was. Whether it was is decided by the
+	// split itself and not by the text's suffix: with a separator that overlaps
+	// itself ("--" in "a---") the text ends with the separator's characters
+	// although its last line ("-") is not terminated.
+	if !opts.NoTrailingLineSeparators && len(lines) < strings.Count(ed.Text, opts.LineSeparator)+1 {
 		applied = append(applied, "")
 	}
 
